@@ -278,7 +278,9 @@ def write_shard(prop, cases, path):
 
 def eval_shard(path):
     d, b = os.path.split(path)
-    rc, out = sh(["timeout", "1800", "coqc", "-Q", os.path.join(COQ, "theories"), "Moc", b], cwd=d)
+    # (a generous stack: the observations of a case can contain strings of tens of thousands of bytes)
+    rc, out = sh(["sh", "-c", 'ulimit -s unlimited 2>/dev/null || ulimit -s 1000000 2>/dev/null; exec timeout 1800 coqc -Q "$1" Moc "$2"',
+                  "coqc", os.path.join(COQ, "theories"), b], cwd=d)
     if rc != 0:
         return None, out
     flat = " ".join(out.split())
